@@ -168,7 +168,10 @@ def oracle(ctx, ts, ts2, rp, order, check_idempotent=True):
                 return fail("mutation-piece", "site at %d: mutation on node %d sits on piece %d which is absent there"
                             % (x, origin[m.node], m.node))
     # (f) genotypes
-    if ts.num_samples and ts.num_sites:
+    pairs = [(int(m.site), int(m.node)) for m in ts.mutations()]
+    # (two mutations on one branch at one site: the genotype then depends on the order tskit's
+    # sort gives to tied rows -- DESIGN.md section 9, K9 -- so genotypes are not compared there)
+    if ts.num_samples and ts.num_sites and len(set(pairs)) == len(pairs):
         if list(ts.samples()) != list(ts2.samples()) or not np.array_equal(ts.genotype_matrix(), ts2.genotype_matrix()):
             return fail("genotypes", "genotype matrix changed")
     # (g) idempotence
